@@ -25,12 +25,28 @@ errs=[l for l in txt.splitlines() if l.startswith('error')]
 print(json.dumps({"feature_set":name,"cargo_args":args,"ok":rc=="0","seconds":float(secs),"errors":errs[:12],"log_tail":txt[-1500:] if rc!="0" else ""}))
 PY
 }
+build_probe() { # the advertised std+serde set, seen from a dependent crate that needs Serialize + DeserializeOwned of every listed type
+  local name="std_serde_traits"
+  local log="$V/target/features/build-$name.log"
+  local t0=$(date +%s.%N)
+  ( cd "$V/harness-serde/probe" && cargo build --offline --target-dir "$V/target/features/$name" ) >"$log" 2>&1
+  local rc=$?
+  local t1=$(date +%s.%N)
+  python3 - "$name" "$rc" "$log" "$(echo "$t1 - $t0" | bc)" >> "$B" <<'PY'
+import json,sys
+name,rc,log,secs=sys.argv[1:5]
+txt=open(log,errors='replace').read()
+errs=[l for l in txt.splitlines() if l.startswith('error')]
+print(json.dumps({"feature_set":name,"cargo_args":"(dependent crate harness-serde/probe: stats-ci with --no-default-features --features std,serde; every listed type must implement Serialize + DeserializeOwned)","command":"cd /verif/harness-serde/probe && cargo build --offline","ok":rc=="0","seconds":float(secs),"errors":errs[:12],"log_tail":txt[-2500:] if rc!="0" else ""}))
+PY
+}
 if [ -z "$REPLAY" ] || grep -q -E '"sub": *"(feature_build|not_serializable)"' "$REPLAY" 2>/dev/null; then
   build_one default
   build_one std --no-default-features --features std
   build_one std_approx --no-default-features --features std,approx
   build_one std_serde --no-default-features --features std,serde
   build_one all --all-features
+  build_probe
 fi
 # the round-trip harness depends on stats-ci with the serde feature
 H="$V/target/build-serde.log"
@@ -54,7 +70,7 @@ for x in failed:
     json.dump({"property":"C20","sub":"feature_build","sig":f"C20/feature_build/{x['feature_set']}","message":"; ".join(x["errors"][:3]),"input":{"feature_set":x["feature_set"],"command":"cd /repo && cargo build --offline --lib "+x["cargo_args"],"compiler_output":x["log_tail"]}},open(path,"w"),indent=1)
     viol.append((x["feature_set"],path))
 ev={"property_id":"C20","tier":tier,"seed":int(seed),"level":"exploration",
-    "coverage":{"evaluations":len(builds),"distinct_nontrivial":len(builds),"rule":"all five advertised feature sets are built (enumerated completely); the serde round-trip harness could not be built, so no round trips were explored in this run","samples":builds,"exhaustive":False,"feature_builds":builds,"round_trip_harness":"does not build","harness_log_tail":htxt[-1500:]},
+    "coverage":{"evaluations":len(builds),"distinct_nontrivial":len(builds),"rule":"all five advertised feature sets are built (enumerated completely), plus a dependent probe crate under std+serde; the serde round-trip harness could not be built, so no round trips were explored in this run","samples":builds,"exhaustive":False,"feature_builds":builds,"round_trip_harness":"does not build","harness_log_tail":htxt[-1500:]},
     "assumptions":["cargo build --offline --lib of /repo's working tree per feature set"],"wall_s":float(wall),"violations":len(viol)}
 json.dump(ev,open(f"{V}/evidence/C20.json","w"),indent=1)
 print(f"C20 tier={tier} seed={seed} feature_sets_built={len(builds)} failed={len(failed)} round_trip_harness=does-not-build")
